@@ -354,12 +354,12 @@ class Ctx:
         for c, a, b in zip(cases, impl_out, model_out):
             st["cases"] += 1
             self.note_case([stream, c], nontrivial(c))
-            if a.startswith("err "):
+            if a.startswith("err"):
                 st["impl_err"] += 1
                 st["by_kind"][a] = st["by_kind"].get(a, 0) + 1
             if a == b:
                 st["agree"] += 1
-            elif a.startswith("err ") and b.startswith("err "):
+            elif a.startswith("err") and b.startswith("err") and a.split()[0] == b.split()[0]:
                 st["agree"] += 1
                 st["both_err"] += 1
                 st["kind_drift"] += 1
@@ -413,6 +413,8 @@ def run_check(mod, tier, seed):
             if s.startswith("unsupported"):
                 ctx.broken.append(f"translator:{g}: {s}")
         targets = [f"Props/{prop}.vo", "Extract/Extract.vo"]
+        if os.environ.get("VERIF_DEV_NOPROOF"):   # development aid only: harness without the proof build
+            targets = ["Extract/Extract.vo"]
         rc, out, dt, cmd = make(targets)
         build_info = {"cmd": f"cd {COQ} && {cmd}", "rc": rc, "wall_s": round(dt, 1)}
         if rc != 0:
